@@ -11,13 +11,25 @@ namespace P0f
 theorem qset_ofList_union (a b : List Quirk) : (QSet.ofList a).union (QSet.ofList b) = QSet.ofList (a ++ b) := by
   funext q; simp [QSet.union, QSet.ofList]
 
+/-! quirk-set identities a rewrite of the matching code is likely to use (both spellings normalise to `a ∩ ¬b`) -/
+theorem qxor_inter_left (a b : QSet) : (a.xor b).inter a = a.inter b.compl := by
+  funext q; simp only [QSet.xor, QSet.inter, QSet.compl]; cases a q <;> cases b q <;> rfl
+theorem qxor_inter_right (a b : QSet) : (a.xor b).inter b = b.inter a.compl := by
+  funext q; simp only [QSet.xor, QSet.inter, QSet.compl]; cases a q <;> cases b q <;> rfl
+theorem qinter_xor_left (a b : QSet) : a.inter (a.xor b) = a.inter b.compl := by
+  funext q; simp only [QSet.xor, QSet.inter, QSet.compl]; cases a q <;> cases b q <;> rfl
+theorem qinter_xor_right (a b : QSet) : b.inter (a.xor b) = b.inter a.compl := by
+  funext q; simp only [QSet.xor, QSet.inter, QSet.compl]; cases a q <;> cases b q <;> rfl
+theorem qcompl_union (a b : QSet) : (a.union b).compl = a.compl.inter b.compl := by
+  funext q; simp only [QSet.union, QSet.inter, QSet.compl]; cases a q <;> cases b q <;> rfl
+
 theorem gen_tcpSignaturesMatch (s : Sig) (p : PSig) (d : Int) : Gen.tcpSignaturesMatch s p d = tcpMatch s p d := by
   first
   | exact rfl
   | (unfold Gen.tcpSignaturesMatch tcpMatch maskedQ quirkStep windowBad v4Only v6Only
      simp only [qset_ofList_union, List.cons_append, List.nil_append, optInt_bne_wild, optInt_beq_wild, optInt_bne_cast,
        optBoolInt_bne_wild, optBoolInt_bne_bool, natCast_beq_ofNat, natCast_bne_ofNat, fmod_natCast, natCast_bne_zero,
-       natCast_beq_cast, natCast_bne_cast]
+       natCast_beq_cast, natCast_bne_cast, qxor_inter_left, qxor_inter_right, qinter_xor_left, qinter_xor_right]
      grind)
 
 /-- **C01 against the source text**: `tcp_signatures_match` as printed from the working tree follows the
